@@ -229,22 +229,68 @@ func innerInputs(fx []fixture) []fixture {
 }
 
 // boundsCandidates reads lean/Gp/Gen/BoundsCandidates.txt written by x-facts: one line
-// "<fn> <recv-or--> <minLen>" per bounds VC that does not hold (known-bad ones included).
-func boundsCandidates() [][3]string {
+// "<fn> <recv-or--> <minLen> <idx> <id> [*]" per bounds VC that does not hold (known-bad ones
+// are starred).
+type boundsCand struct {
+	fn, recv    string
+	minLen, idx int
+}
+
+func boundsCandidates() []boundsCand {
 	f, err := os.Open(filepath.Join(verifRoot(), "lean", "Gp", "Gen", "BoundsCandidates.txt"))
 	if err != nil {
 		return nil
 	}
 	defer f.Close()
-	var out [][3]string
+	var out []boundsCand
+	seen := map[boundsCand]bool{}
 	sc := bufio.NewScanner(f)
 	for sc.Scan() {
 		p := strings.Fields(sc.Text())
-		if len(p) == 3 && !strings.HasPrefix(p[0], "#") {
-			out = append(out, [3]string{p[0], p[1], p[2]})
+		if len(p) < 4 || strings.HasPrefix(p[0], "#") {
+			continue
+		}
+		m, err1 := strconv.Atoi(p[2])
+		i, err2 := strconv.Atoi(p[3])
+		if err1 != nil || err2 != nil {
+			continue
+		}
+		c := boundsCand{p[0], p[1], m, i}
+		if !seen[c] {
+			seen[c] = true
+			out = append(out, c)
 		}
 	}
 	return out
+}
+
+// lengthShaped: n bytes in which every aligned 16-bit word (big- or little-endian) and every
+// byte that could be a length field says "n" (or n/4 words): passes "declared length ==
+// actual length" checks and then reaches the fixed-offset reads behind them.
+func lengthShaped(n int, variant int) []byte {
+	b := make([]byte, n)
+	switch variant % 4 {
+	case 0: // 16-bit big-endian words = n
+		for i := 0; i+1 < n; i += 2 {
+			b[i], b[i+1] = byte(n>>8), byte(n)
+		}
+	case 1: // 16-bit little-endian words = n
+		for i := 0; i+1 < n; i += 2 {
+			b[i], b[i+1] = byte(n), byte(n>>8)
+		}
+	case 2: // every byte = n
+		for i := range b {
+			b[i] = byte(n)
+		}
+	case 3: // every byte = n/4 (lengths in 32-bit words), first byte version-like
+		for i := range b {
+			b[i] = byte(n / 4)
+		}
+		if n > 0 {
+			b[0] = 0x45
+		}
+	}
+	return b
 }
 
 func gen(r *lib.Rand, tier string, emit func(string)) {
@@ -261,25 +307,33 @@ func gen(r *lib.Rand, tier string, emit func(string)) {
 	nextOpts := func() int { optsCycle++; return optsCycle % 16 }
 	emit(fmt.Sprintf("# gp-all: %d fixtures harvested from %s, %d inner-layer inputs, %d first decoders, %d DecodeFromBytes types", len(fx), repoDir(), len(inner), len(firsts), len(dlCtors)))
 
-	// (0) candidates attached to bounds VCs that do not hold (failed or known-bad)
+	// (0) candidates attached to bounds VCs that do not hold (failed or known-bad): inputs of the
+	//     lengths between the established lower bound and the accessed index, several fillings
 	for _, bc := range boundsCandidates() {
-		m, _ := strconv.Atoi(bc[2])
-		if m > 4096 {
+		if bc.minLen > 4096 {
 			continue
 		}
-		for _, n := range []int{m, m + 1, max(0, m-1)} {
-			for _, fill := range []byte{0x00, 0xff} {
-				b := make([]byte, n)
-				for i := range b {
-					b[i] = fill
-				}
-				if bc[1] != "-" {
-					if _, ok := ctorByName[bc[1]]; ok {
-						one("all dl %s %s", bc[1], lib.Hex(b))
+		lens := map[int]bool{bc.minLen: true, bc.minLen + 1: true, bc.idx: true}
+		if bc.idx > 0 {
+			lens[bc.idx-1] = true
+		}
+		var ls []int
+		for n := range lens {
+			if n >= 0 && n <= bc.idx && n <= 4096 {
+				ls = append(ls, n)
+			}
+		}
+		sort.Ints(ls)
+		for _, n := range ls {
+			fills := [][]byte{make([]byte, n), bytes0xff(n), lengthShaped(n, 0), lengthShaped(n, 1), lengthShaped(n, 2), lengthShaped(n, 3)}
+			for _, b := range fills {
+				if bc.recv != "-" {
+					if _, ok := ctorByName[bc.recv]; ok {
+						one("all dl %s %s", bc.recv, lib.Hex(b))
 					}
 				}
 				for i := range firsts {
-					if firsts[i].fn == bc[0] || (bc[1] != "-" && firsts[i].lt >= 0 && normName(firsts[i].lt.String()) == normName(bc[1])) {
+					if firsts[i].fn == bc.fn || firsts[i].fn == bc.recv+"."+bc.fn || (bc.recv != "-" && firsts[i].lt >= 0 && normName(firsts[i].lt.String()) == normName(bc.recv)) {
 						one("all dec %s %d %s", firsts[i].name, 0, lib.Hex(b))
 					}
 				}
@@ -293,7 +347,7 @@ func gen(r *lib.Rand, tier string, emit func(string)) {
 	if thorough {
 		maxShort = 160
 	}
-	pats := [][]byte{make([]byte, maxShort), bytes0xff(maxShort), r.Bytes(maxShort), r.Bytes(maxShort)}
+	pats := [][]byte{make([]byte, maxShort), bytes0xff(maxShort), r.Bytes(maxShort), r.Bytes(maxShort), nil, nil}
 	if thorough {
 		for i := 0; i < 6; i++ {
 			pats = append(pats, r.Bytes(maxShort))
@@ -304,11 +358,17 @@ func gen(r *lib.Rand, tier string, emit func(string)) {
 			if !thorough && n > 24 && (n+pi)%2 == 1 {
 				continue
 			}
+			in := []byte(nil)
+			if pat == nil {
+				in = lengthShaped(n, pi+n) // length-consistent inputs
+			} else {
+				in = pat[:n]
+			}
 			for i := range firsts {
-				one("all dec %s %d %s", firsts[i].name, nextOpts(), lib.Hex(pat[:n]))
+				one("all dec %s %d %s", firsts[i].name, nextOpts(), lib.Hex(in))
 			}
 			for _, ct := range dlCtors {
-				one("all dl %s %s", ct.name, lib.Hex(pat[:n]))
+				one("all dl %s %s", ct.name, lib.Hex(in))
 			}
 		}
 	}
